@@ -88,6 +88,9 @@ func (P *Prog) verifyFunc(key string, sweepOnly bool) (res *FuncResult) {
 		}
 		x.computeModset(st, env)
 		x.entry = st.snapshot()
+		for _, u := range con.Uses {
+			x.useLemma(st, env, u, con.Props)
+		}
 		// vacuity cover: the precondition together with the type invariants is satisfiable
 		o := &Obligation{Name: x.key + ".cover.requires", Func: x.key, Kind: "cover", Label: "requires", Goal: "precondition is satisfiable",
 			Decls: append([]string(nil), st.decls...), Facts: append([]string(nil), st.facts...), Neg: "true", Cover: true, Pos: P.pos(fn.Pos())}
